@@ -155,10 +155,25 @@ def _mk_flake(case, t_tot=None):
     store = case.get("store", "all")
     if isinstance(store, list):
         store = tuple(store)
-    return Snowflake(k=dict(case["k"]), N_vials=tuple(case["shape"]), dt=case["dt"],
-                     opcond=_mk_opcond(case, t_tot), storeStates=store,
-                     solidificationThreshold=case.get("solThr", 0.9), seed=case.get("seed", 2021),
-                     seed_v=case.get("seed_v", 2024), initIce=case.get("initIce", "indirect"))
+    cfg_path = None
+    if case.get("config"):
+        import os
+        import tempfile
+
+        import yaml
+
+        fd, cfg_path = tempfile.mkstemp(suffix=".yaml", prefix="verif_c12_")
+        with os.fdopen(fd, "w") as f:
+            yaml.safe_dump(case["config"], f)
+    try:
+        return Snowflake(k=dict(case["k"]), N_vials=tuple(case["shape"]), dt=case["dt"],
+                         opcond=_mk_opcond(case, t_tot), storeStates=store,
+                         solidificationThreshold=case.get("solThr", 0.9), seed=case.get("seed", 2021),
+                         seed_v=case.get("seed_v", 2024), initIce=case.get("initIce", "indirect"),
+                         configPath=cfg_path)
+    finally:
+        if cfg_path:
+            os.unlink(cfg_path)
 
 
 def _nan2none(a):
@@ -866,6 +881,8 @@ def classify(case, impl):
         tags.append("cn" if case.get("cn") is not None else "no-cn")
         if case.get("long"):
             tags.append("long-run(>=60000 steps)")
+        if case.get("config"):
+            tags.append("configured-solution(T_eq!=0) x " + case.get("initIce", "indirect"))
         if case.get("rerun"):
             tags.append("history=run,query,reseed,run,query")
         if case.get("mutate"):
@@ -966,6 +983,10 @@ def _real(rng, big=False):
                 qfrac=sorted(rng.random() for _ in range(4)) + [0, 1], offgrid=True)
     if unstable:
         case["unstable"] = True
+    if rng.random() < 0.3:
+        # a configured solution: melting temperature != 0, other solid fraction (both initIce methods are drawn above)
+        case["config"] = {"solution": {"T_eq": rng.choice([2.0, -1.5, 0.5, 3.25]),
+                                       "solid_fraction": rng.choice([0.05, 0.1, 0.2])}}
     if rng.random() < 0.35:
         case["mutate"] = True
     if rng.random() < 0.15:
